@@ -2,7 +2,7 @@
    compared differentially, set_token_indent is not modelled). *)
 Require Import List NArith Bool Arith.
 Import ListNotations.
-Require Import Tokenizer TokenizerProofs Symbols Lines LinesProofs Inst.
+Require Import Tokenizer TokenizerProofs Symbols Lines LinesProofs Inst Shape ShapeProofs.
 
 (* a token list that is the image of reading some text is reproduced by emitting it and reading it again *)
 Theorem C08_reread_fixpoint : forall ls toks, vsg_read ls = Some toks -> vsg_read (tl (get_lines toks)) = Some toks.
@@ -17,3 +17,14 @@ Print Assumptions C08_reread_fixpoint.
 Theorem C08_regroup_same_text : forall l l', regroup l l' -> get_lines l' = get_lines l.
 Proof. exact regroup_get_lines. Qed.
 Print Assumptions C08_regroup_same_text.
+
+(* a model that emitting and reading reproduces has the reader shape: every line holds an object, a blank_line
+   object is alone on its line, no whitespace object is empty.  The trace checker evaluates [shape] after every
+   rule application; the first application after which it is lost (and not restored) is reported as the call site *)
+Theorem C08_reread_requires_shape : forall m, vsg_read (tl (get_lines m)) = Some m -> shape m = true.
+Proof. intros m. apply reread_requires_shape. Qed.
+Print Assumptions C08_reread_requires_shape.
+
+Theorem C08_read_has_shape : forall ls toks, vsg_read ls = Some toks -> shape toks = true.
+Proof. intros ls toks. apply read_shape. Qed.
+Print Assumptions C08_read_has_shape.
